@@ -11,10 +11,10 @@ import (
 )
 
 const ruleText = "one case = fresh api state (no keys, no sessions, dev mode off, authenticator flag off, logical clock 0) followed by op lines: " +
-	"config changes through the real config system (keys/dev/cfgchange), authset, adv (logical clock), clean, logout (real auth/reset endpoint) and req lines served by the real mainHandler " +
+	"config changes through the real config system (keys/dev/cfgchange/overlap), authset, adv (logical clock), clean, logout (real auth/reset endpoint) and req lines served by the real mainHandler " +
 	"(directly, over a real TCP connection, or through the database bridge). Families: complete decision tables required permission x granted read x granted write x method class per credential source " +
 	"(authenticator, API key Bearer/Basic, session cookie, dev mode, bridge), origin x host x dev-mode tables, route tables (no match, method mismatch, nil handler, plain handler, module not ready, dirty path, endpoints), " +
-	"key-configuration parsing, random histories of key changes / session creation / expiry / reset, and grammar+mutation Authorization/Cookie/Origin header strings. " +
+	"key-configuration parsing, dead-credential histories (a session that expired / was slid k times and expired / was reset, an API key past its expiry, presented 2-4 times in a row with and without other events, the session cleaner or a key re-import in between, through read and write handlers), overlapped key imports (the option is changed again while the import of the previous value is parked right after its configuration read; probes after quiescence), random histories of key changes / session creation / expiry / reset with repeated presentations, and grammar+mutation Authorization/Cookie/Origin header strings. " +
 	"A case is non-trivial if at least one of its requests reaches a registered handler route with a credential decision to take; distinct by the hash of its op lines."
 
 var permPool = []int{-2, -1, 0, 1, 2, 3, 4, 5, -3, 100, -100, 127, -128}
@@ -178,6 +178,9 @@ func (g *gen) req(q reqSpec) string {
 func generate(r *hxlib.Run, emit func(hxlib.Case)) {
 	g := &gen{r: r, rng: r.Rng, emit: emit}
 	g.regressions()
+	g.deadSessions()
+	g.deadKeys()
+	g.overlappedImports()
 	g.tableAuthenticator()
 	g.randomPerms()
 	g.tableKeys()
@@ -830,6 +833,17 @@ func (g *gen) history() {
 			}
 			bounds = append(bounds, now+300)
 			lines = append(lines, g.req(q))
+			// the same credential again, 1-3 times in a row (what a refusal or a grant did to the stored
+			// state shows in the next presentation), through other methods / declared permissions
+			if (q.cookie != "" || q.authz != "") && g.rng.Intn(3) == 0 {
+				for k := 1 + g.rng.Intn(3); k > 0; k-- {
+					m2 := methodTable[g.rng.Intn(5)]
+					t2, v2 := g.routeFor(g.pick([]string{"dyn", "dyn", "ep", "m"}), m2.m)
+					q2 := reqSpec{method: m2.m, acrm: m2.acrm, target: t2, rview: v2, cookie: q.cookie, authz: q.authz}
+					g.r.Count("history:credential-presented-again")
+					lines = append(lines, g.req(q2))
+				}
+			}
 		}
 	}
 	g.out("history", lines)
